@@ -649,7 +649,7 @@ def run_C12(tier, rng, chk):
     for grp in range(16):
         for ver in (0, 1):
             items.append(P(0, *ct_group(60369, 12, 30, 2, ver, grp)))
-    pre = ["0 I 0", "0 R 11 1", "0 R 0 1"]
+    pre = ["0 I 0", "0 R 11 1"]     # only the clock-time callback: the family owns the events
     for ci, ch in enumerate(chunks(items, 2500)):
         sw.append(sweep_script("c12_sweep_%d" % ci, pre, ch))
     out = chk.run_stream(sw, prop="C12")
